@@ -1,0 +1,18 @@
+//go:build verif
+
+package alertsqlite
+
+// C20 (a Firing notification is repeated only after the cool-down): the
+// cool-down / silence window is measured from notification_details.last_sent_time
+// (notificationHandler: isCooldownOver / isSilenceMinutesOver), so EVERY
+// notification that is sent has to move last_sent_time — the repeated Firing
+// notification included, whose alert state equals the recorded one.  The
+// bookkeeping update therefore selects the alert's row by its id alone.
+// Checked by /verif/bin/govc.  Comment-only file.
+
+//@ func updateLastSentTimeAndAlertState
+//@   props C20
+//@   assumecalleerequires
+//@   site call db.Model(&alertutils.Notification{}).Where #1:
+//@     assert [row-selected-by-alert-id-alone] arg1.(string) == "alert_id = ?" && len(arg2) == 1 && arg2[0].(string) == alert_id
+//@ end
